@@ -50,3 +50,36 @@ func init() {
 		ref("C16", "C16-r4-2"), ref("C01", "C16-r4-2"), seed("C16", "C16-r4-2", "R16.3", "parseFunctionBody"),
 	)
 }
+
+// F16 / F17 (found by seeding agents on the unchanged tree, repaired in /repo): the repairs removed again
+func init() {
+	pp := "parser/parser.go"
+	aa := "ast/ast.go"
+	addVariants(
+		variant{Prop: "C06", Name: "separator-trivia-dropped-again", File: pp,
+			Old:  "\t\tif comments := p.CurrentToken.LeadingComments; len(comments) > 0 {\n\t\t\tp.PeekToken.LeadingComments = append(append([]string(nil), comments...), p.PeekToken.LeadingComments...)\n\t\t}\n",
+			New:  "",
+			Rule: "R6.6", Construct: "consumes the ';'"},
+		variant{Prop: "C06", Name: "separator-trivia-appended-behind", File: pp,
+			Old:  "p.PeekToken.LeadingComments = append(append([]string(nil), comments...), p.PeekToken.LeadingComments...)",
+			New:  "p.PeekToken.LeadingComments = append(append([]string(nil), p.PeekToken.LeadingComments...), comments...)",
+			Rule: "R6.6", Construct: "store to the peek token's comments"},
+		variant{Prop: "C06", Name: "separator-trivia-handed-on-before-the-advance", File: pp,
+			Old:  "\t\tp.NextToken()\n\t\t// comments in front of the ';' stay in the program: they now lead the token behind it\n",
+			New:  "\t\t// comments in front of the ';' stay in the program: they now lead the token behind it\n",
+			More: []edit{{File: pp, Old: "p.PeekToken.LeadingComments...)\n\t\t}\n\t\treturn true", New: "p.PeekToken.LeadingComments...)\n\t\t}\n\t\tp.NextToken()\n\t\treturn true"}},
+			Rule: "R6.6", Construct: "consumes the ';'"},
+		variant{Prop: "C01", Name: "integer-literal-bare-before-dot", File: aa,
+			Old:  "\tif integerObject {\n\t\tcw.WriteRune('(')\n\t}\n\tme.Object.WriteTo(cw)\n\tif integerObject {\n\t\tcw.WriteRune(')')\n\t}\n",
+			New:  "\tme.Object.WriteTo(cw)\n\t_ = integerObject\n",
+			Rule: "R1.6", Construct: "'.' written behind Object"},
+		variant{Prop: "C01", Name: "parentheses-on-the-wrong-type-test", File: aa,
+			Old:  "_, integerObject := me.Object.(*IntegerLiteral)",
+			New:  "_, integerObject := me.Object.(*FloatLiteral)",
+			Rule: "R1.6", Construct: "'.' written behind Object"},
+		variant{Prop: "C01", Name: "benign-integer-test-inverted-form", File: aa,
+			Old:    "\tif integerObject {\n\t\tcw.WriteRune('(')\n\t}\n\tme.Object.WriteTo(cw)\n\tif integerObject {\n\t\tcw.WriteRune(')')\n\t}\n",
+			New:    "\tif !integerObject {\n\t\tme.Object.WriteTo(cw)\n\t} else {\n\t\tcw.WriteRune('(')\n\t\tme.Object.WriteTo(cw)\n\t\tcw.WriteRune(')')\n\t}\n",
+			Benign: true},
+	)
+}
